@@ -385,13 +385,28 @@ func (r *Run) Finish() {
 	if r.exhaustive {
 		cov["exhaustive"] = true
 	}
+	reserved := func(k string) string {
+		switch k {
+		case "states", "transitions", "programs", "obligations", "discharged", "evaluations", "samples", "explanation",
+			"traces_validated_against_impl", "disagreements_checked", "checker_cmd", "trusted_base", "exhaustive", "rule",
+			"distinct_nontrivial":
+			return k + "_count"
+		}
+
+		return k
+	}
 	for k, v := range r.counters {
-		cov[k] = v
+		cov[reserved(k)] = v
 	}
 	for k, v := range r.extra {
-		cov[k] = v
+		cov[reserved(k)] = v
 	}
 	for name, m := range r.sets {
+		switch name { // keys the evidence schema reserves for integers / other types
+		case "states", "transitions", "programs", "obligations", "discharged", "evaluations", "samples", "explanation",
+			"traces_validated_against_impl", "disagreements_checked", "checker_cmd", "trusted_base", "exhaustive", "rule":
+			name += "_seen"
+		}
 		cov[name+"_distinct"] = len(m)
 		if len(m) <= 64 {
 			keys := make([]string, 0, len(m))
